@@ -6,7 +6,7 @@ from fw import Corr, Failure, cz, cq
 from props import C15_lift
 
 TITLE = 'Operators lift uniformly; numeric kernels obey range and inverse laws'
-TRANSLATED = ['Gen_builtins', 'Gen_builtinsR']
+TRANSLATED = ['Gen_builtins', 'Gen_builtinsR'] + C15_lift.TRANSLATED
 MODEL_TARGETS = ['gen/Gen_builtins.vo'] + C15_lift.MODEL_TARGETS
 ALLOWED_AXIOMS = ['sig_forall_dec', 'sig_not_dec', 'functional_extensionality_dep', 'classic']
 TRUSTED = [
